@@ -2759,14 +2759,20 @@ class _KindFlow:
                 e = e.value
             if not isinstance(e, ast.Name):
                 return None
-            if e.id == 'self' or self.is_node_root(e.id):
+            if e.id == 'self':
                 break
             if self.is_slot(e, nid):
                 return None
+            # a local standing for a part of the node (cores = node['cores'])
+            # is followed to the node before the name itself is judged
             v, vn = self.res.single(e, nid)
-            if v is e or not I.is_path(v):
-                return None
-            e = v
+            if v is not e and I.is_path(v) and \
+                    isinstance(v, (ast.Subscript, ast.Attribute)):
+                e = v
+                continue
+            if self.is_node_root(e.id):
+                break
+            return None
         else:
             return None
         steps.reverse()
@@ -3051,6 +3057,7 @@ def r01_15(prog, rep, rid='R01.15'):
                         a = atom(y, vn)
                         if a:
                             known.add(a)
+    missing = [kd for kd in ('cores', 'gpus') if kd not in marks]
     for kd in sorted(marks):
         me = ('blocked', kd)
         if me not in known:
@@ -3086,6 +3093,10 @@ def r01_15(prog, rep, rid='R01.15'):
                   '[0, 1] and no blocked_%s: node map shows the two %s as '
                   'free, the first task is granted %s 0 of node 0'
                   % (kd, other, kd, kd[:-1]))
+    if missing:
+        # R01.7 reports the missing marking; this rule has nothing to decide
+        raise AnalysisError('R01.15: no statement of %s marks blocked %s as '
+                            'rpc.DOWN' % (f.where, ' / '.join(missing)))
 
 
 # ------------------------------------------------------------------------------
